@@ -22,6 +22,7 @@ RULE = ("Cells (model kind in 4) x (metric in 47) x (on-the-fly | pre-computed m
         "option, metric behaviour on probe vectors, pre-computed matrix bytes (symmetric and asymmetric matrices), best_k and density range equal; then a "
         "second, different model of identical shape is saved to the SAME path and loaded again (stale-load history). Non-trivial: every case that fits; "
         "distinct = case hash; cells = kind x metric x mode.")
+RULE += (' ~1.3% of the on-the-fly cases use 2-D patch samples (X of shape (n,h,w)); after all comparisons the original and the loaded model receive the same follow-up history (another matrix assigned, a re-fit on reversed rows, a prediction) and must agree in state and predictions.')
 ASSUMPTIONS = [
     "a fit that raises is counted 'aborted' and skipped (nothing to save)",
     "the fresh-interpreter load is sampled (1 in 28 quick, 1 in 8 thorough) because each costs an interpreter start",
